@@ -772,6 +772,9 @@ fn judge_out_of_range(ctx: &mut Ctx, name: &str, r: Result<Value, ()>, want: f64
 }
 
 pub fn run(ctx: &mut Ctx, args: &[String]) {
+    if !args.iter().any(|a| a == "--miri-sample") && ctx.shard == 0 {
+        check_serializers_agree(ctx);
+    }
     ctx.start_watchdog(120);
     // `--miri-sample`: 60 generated data through all views and conversions, nothing else
     let miri_sample = args.iter().any(|a| a == "--miri-sample");
@@ -878,6 +881,159 @@ enum Colour {
     Red,
     DarkGreen,
 }
+/// an enum whose variants carry data (serde writes them as one-entry maps)
+#[derive(Serialize, Debug, Clone)]
+enum Carrier {
+    N(i32),
+    T(i8, String),
+    S { a: u8, b: String },
+}
+#[derive(Serialize, Debug, Clone)]
+struct OneField {
+    v: i64,
+}
+
+/// the three serde entry points -- `to_value`, `to_object`, `to_scalar` -- are three separate
+/// serializers; whatever two of them accept they must convert alike, and none may panic
+fn check_serializers_agree(ctx: &mut Ctx) {
+    use liquid::model::{to_object, to_scalar};
+    fn one<T: Serialize + std::fmt::Debug>(ctx: &mut Ctx, x: &T, direct_scalar: bool) {
+        let shown = format!("{x:?}");
+        let replay = || json!({"kind": "serializers", "value": shown});
+        ctx.record(hash_str(&format!("ser3:{}:{shown}", std::any::type_name::<T>())), true);
+        ctx.count("serializers:shapes");
+        let r = guard(|| {
+            (
+                to_value(x).ok().map(|v| dump_view(&v)),
+                to_object(x).ok().map(|o| dump_view(&Value::Object(o))),
+                to_scalar(x).ok().map(|sc| dump_view(&Value::Scalar(sc))),
+                to_value(x).ok().map(|v| (v.as_object().is_some(), v.as_scalar().is_some())),
+            )
+        });
+        let (v, o, sc, kind) = match r {
+            Ok(t) => t,
+            Err(p) => {
+                ctx.violation(&p.key(), &format!("a serde conversion of {shown} panicked: {}", p.msg), replay);
+                return;
+            }
+        };
+        if let Some(o) = &o {
+            ctx.count("serializers:to_object-accepts");
+            if v.as_ref() != Some(o) {
+                ctx.violation("serde:to_object-differs-from-to_value", &format!("to_object({shown}) = {o}, to_value gives {v:?}"), replay);
+            }
+        }
+        if let Some(sc) = &sc {
+            ctx.count("serializers:to_scalar-accepts");
+            if v.as_ref() != Some(sc) {
+                ctx.violation("serde:to_scalar-differs-from-to_value", &format!("to_scalar({shown}) = {sc}, to_value gives {v:?}"), replay);
+            }
+        }
+        if let Some((is_obj, is_scalar)) = kind {
+            if is_obj && o.is_none() {
+                ctx.violation("serde:to_object-rejects-an-object", &format!("to_value({shown}) is an object ({v:?}) but to_object refuses it"), replay);
+            }
+            if is_scalar && direct_scalar && sc.is_none() {
+                ctx.violation("serde:to_scalar-rejects-a-scalar", &format!("to_value({shown}) is a scalar ({v:?}) but to_scalar refuses it"), replay);
+            }
+            if !is_obj && o.is_some() || !is_scalar && sc.is_some() {
+                ctx.violation("serde:kind-differs-between-serializers", &format!("{shown}: to_value says {v:?}, to_object {o:?}, to_scalar {sc:?}"), replay);
+            }
+        }
+    }
+    one(ctx, &true, true);
+    one(ctx, &false, true);
+    for n in [i8::MIN, -1, 0, i8::MAX] {
+        one(ctx, &n, true);
+    }
+    for n in [i16::MIN, 300] {
+        one(ctx, &n, true);
+    }
+    for n in [i32::MIN, 70000] {
+        one(ctx, &n, true);
+    }
+    for n in [i64::MIN, -1, 0, i64::MAX] {
+        one(ctx, &n, true);
+    }
+    one(ctx, &200u8, true);
+    one(ctx, &60000u16, true);
+    one(ctx, &4_000_000_000u32, true);
+    for n in [0u64, i64::MAX as u64, i64::MAX as u64 + 1, u64::MAX] {
+        one(ctx, &n, false);
+    }
+    for f in [0.0f32, -1.5, 3.0e10] {
+        one(ctx, &f, true);
+    }
+    for f in [0.0f64, -0.0, 2.5, 1e300, f64::NAN, f64::INFINITY] {
+        one(ctx, &f, true);
+    }
+    for c in ['a', 'é', '👍', '\n'] {
+        one(ctx, &c, true);
+    }
+    for t in ["", "text", "42", "2020-01-02", "é 👍"] {
+        one(ctx, &t, true);
+        one(ctx, &t.to_string(), true);
+    }
+    one(ctx, &(), false);
+    one(ctx, &Marker, false);
+    one(ctx, &Colour::Red, false);
+    one(ctx, &Meters(3), false);
+    one(ctx, &Carrier::N(5), false);
+    one(ctx, &Carrier::T(-1, "t".into()), false);
+    one(ctx, &Carrier::S { a: 7, b: "é".into() }, false);
+    one(ctx, &None::<i32>, false);
+    one(ctx, &Some(5i32), false);
+    one(ctx, &Some("x"), false);
+    one(ctx, &Some(OneField { v: 1 }), false);
+    one(ctx, &Some(Some(OneField { v: 2 })), false);
+    one(ctx, &OneField { v: -3 }, false);
+    one(ctx, &vec![1, 2, 3], false);
+    one(ctx, &Vec::<i32>::new(), false);
+    one(ctx, &(1u8, "a", true), false);
+    one(ctx, &Pair(4, "p".into()), false);
+    one(ctx, &[1u8, 2, 3], false);
+    one(ctx, &BTreeMap::<String, i32>::new(), false);
+    one(ctx, &BTreeMap::from([("k".to_string(), 1i32), ("size".to_string(), 2)]), false);
+    one(ctx, &BTreeMap::from([("outer".to_string(), BTreeMap::from([("inner".to_string(), vec![Some(1u8), None])]))]), false);
+    one(ctx, &HashMap::from([("only", OneField { v: 9 })]), false);
+    // maps keyed by every scalar kind: keys become their text, or the map is refused -- alike in both
+    one(ctx, &BTreeMap::from([(true, 1)]), false);
+    one(ctx, &BTreeMap::from([(-5i8, 1), (7, 2)]), false);
+    one(ctx, &BTreeMap::from([(-300i16, 1)]), false);
+    one(ctx, &BTreeMap::from([(70000i32, 1)]), false);
+    one(ctx, &BTreeMap::from([(i64::MIN, 1), (i64::MAX, 2)]), false);
+    one(ctx, &BTreeMap::from([(200u8, 1)]), false);
+    one(ctx, &BTreeMap::from([(60000u16, 1)]), false);
+    one(ctx, &BTreeMap::from([(4_000_000_000u32, 1)]), false);
+    one(ctx, &BTreeMap::from([(u64::MAX, 1), (0, 2)]), false);
+    one(ctx, &BTreeMap::from([('é', 1), ('a', 2)]), false);
+    one(ctx, &BTreeMap::from([(Colour::Red as u8, 1)]), false);
+    one(ctx, &BTreeMap::from([((1u8, 2u8), 1)]), false);
+    one(ctx, &BTreeMap::from([(Some(1u8), 1)]), false);
+    one(ctx, &BTreeMap::from([(Meters(2).0, "newtype-inner")]), false);
+    // the keys of an integer-keyed map are the decimal texts (both serializers)
+    for (m, want) in [
+        (to_value(&BTreeMap::from([(-5i8, 1), (7, 2)])).ok(), vec!["-5", "7"]),
+        (to_object(&BTreeMap::from([(-5i8, 1), (7, 2)])).ok().map(Value::Object), vec!["-5", "7"]),
+        (to_value(&BTreeMap::from([(u64::MAX, 1)])).ok(), vec!["18446744073709551615"]),
+        (to_object(&BTreeMap::from([(u64::MAX, 1)])).ok().map(Value::Object), vec!["18446744073709551615"]),
+        (to_value(&BTreeMap::from([('é', 1)])).ok(), vec!["é"]),
+        (to_object(&BTreeMap::from([('é', 1)])).ok().map(Value::Object), vec!["é"]),
+    ] {
+        if let Some(v) = m {
+            let mut keys: Vec<String> = v.as_object().map(|o| o.keys().map(|k| k.to_string()).collect()).unwrap_or_default();
+            keys.sort();
+            if keys != want {
+                ctx.violation("serde:map-keys-converted-wrongly", &format!("map keys {want:?} arrived as {keys:?}"), || json!({"kind": "serializers", "value": format!("{want:?}")}));
+            } else {
+                ctx.count("serializers:map-keys-exact");
+            }
+        } else {
+            ctx.count("serializers:map-refused");
+        }
+    }
+}
+
 #[derive(Serialize, Deserialize, Debug, PartialEq, Clone)]
 struct Shapes {
     a: i8,
